@@ -61,7 +61,7 @@ def outputs(b, c, E, wdir, z_supplied, with_inversion):
     return out
 
 
-def compare(ctx, tag, base, other, field_map, shift, sign, wit, pair):
+def compare(ctx, tag, base, other, field_map, shift, sign, wit, pair, rescue=None):
     def fld(name, mon, key):
         a, b_ = field_map(base[name]), other[name]
         sc = float(np.max(np.abs(a), initial=0))
@@ -93,33 +93,62 @@ def compare(ctx, tag, base, other, field_map, shift, sign, wit, pair):
                   key=f"C09:{tag}:{nm}")
         if dev.size:
             ctx.ratio(f"C09.{tag}:{mon}", float(dev.max()), 1e-4)
-    compare_inversion(ctx, tag, base, other, shift, sign, wit)
+    compare_inversion(ctx, tag, base, other, shift, sign, wit, rescue)
 
 
-def compare_inversion(ctx, tag, base, other, shift, sign, wit):
-    if "invit_u10" in base and "invit_u10" in other:
-        a, b_ = base["invit_u10"], other["invit_u10"]
-        same_nan = np.array_equal(np.isnan(a), np.isnan(b_))
-        fin = np.isfinite(a) & np.isfinite(b_)
+def compare_inversion(ctx, tag, base, other, shift, sign, wit, rescue=None):
+    """rescue(which, iterate) -> list of u10 arrays obtained for member `which` ("base"/"other") from other first
+    guesses; used only to classify a NaN-vs-finite disagreement (C11 known finding: for some first guesses the
+    solver gives up although another guess converges)"""
+    for pre, mon, iterate, dtol in (("invit", "inversion(direction-iteration)", True, 1e-2), ("inv", "inversion", False, 1e-4)):
+        if pre + "_u10" not in base or pre + "_u10" not in other:
+            continue
+        a, b_ = base[pre + "_u10"], other[pre + "_u10"]
+        # winds outside 3..40 m/s are outside the property's range (and below 3 m/s the balance is a flat staircase)
+        inr = lambda x: np.isfinite(x) & (x >= 3.0) & (x <= 40.0)  # noqa
+        judged = inr(a) | inr(b_)
+        fin = np.isfinite(a) & np.isfinite(b_) & judged
         okv = bool(np.all(np.abs(a[fin] - b_[fin]) <= 0.03 + 1e-6 * np.abs(a[fin])))
-        ctx.check(f"C09.{tag}:inversion(direction-iteration)", same_nan and okv, wit, {"base": a, "other": b_},
-                  key=f"C09:{tag}:inversion-iterated:u10")
-        da_, db_ = base["invit_dir"], other["invit_dir"]
+        ctx.check(f"C09.{tag}:{mon}", okv, wit, {"base": a, "other": b_}, key=f"C09:{tag}:{pre}:u10")
+        nan_mis = judged & (np.isnan(a) != np.isnan(b_))
+        if nan_mis.any():
+            key = f"C09:{tag}:{pre}:nan-for-one-member"
+            if rescue is not None:
+                ok_all = True
+                for i in np.where(nan_mis)[0]:
+                    which = "other" if np.isnan(b_[i]) else "base"
+                    ref = a[i] if which == "other" else b_[i]
+                    alts = rescue(which, iterate)
+                    if not any(np.isfinite(u[i]) and abs(u[i] - ref) <= 0.05 for u in alts):
+                        ok_all = False
+                if ok_all:
+                    key = f"C09:{tag}:nan-first-guess-sensitive"
+            ctx.count("C09.nan_for_one_member_of_a_pair", int(nan_mis.sum()))
+            ctx.check(f"C09.{tag}:{mon}", False, wit, {"base": a, "other": b_}, key=key)
+        da_, db_ = base[pre + "_dir"], other[pre + "_dir"]
         okd = np.isfinite(da_) & np.isfinite(db_) & fin
         dev = np.abs(circ_diff(db_[okd], sign * da_[okd] + shift))
-        ctx.check(f"C09.{tag}:inversion(direction-iteration)", bool(np.all(dev <= 1e-2)), wit,
-                  {"base": da_, "other": db_, "shift": shift}, key=f"C09:{tag}:inversion-iterated:direction")
-    if "inv_u10" in base and "inv_u10" in other:
-        a, b_ = base["inv_u10"], other["inv_u10"]
-        same_nan = np.array_equal(np.isnan(a), np.isnan(b_))
-        fin = np.isfinite(a) & np.isfinite(b_)
-        okv = bool(np.all(np.abs(a[fin] - b_[fin]) <= 0.03 + 1e-6 * np.abs(a[fin])))
-        ctx.check(f"C09.{tag}:inversion", same_nan and okv, wit, {"base": a, "other": b_}, key=f"C09:{tag}:inversion:u10")
-        da_, db_ = base["inv_dir"], other["inv_dir"]
-        okd = np.isfinite(da_) & np.isfinite(db_)
-        dev = np.abs(circ_diff(db_[okd], sign * da_[okd] + shift))
-        ctx.check(f"C09.{tag}:inversion", bool(np.all(dev <= 1e-4)), wit, {"base": da_, "other": db_},
-                  key=f"C09:{tag}:inversion:direction")
+        ctx.check(f"C09.{tag}:{mon}", bool(np.all(dev <= dtol)), wit, {"base": da_, "other": db_, "shift": shift},
+                  key=f"C09:{tag}:{pre}:direction")
+
+
+def make_rescue(b, c, E, s_other):
+    from ocean_science_utilities.wavephysics.balance.wind_inversion import windspeed_and_direction_from_spectra
+    from ocean_science_utilities.wavephysics.windestimate import estimate_u10_from_spectrum
+    s_base = wl.build(c, E)
+
+    def rescue(which, iterate):
+        sp = s_other if which == "other" else s_base
+        guess = estimate_u10_from_spectrum(sp, "peak", direction_convention="going_to_counter_clockwise_east")["u10"]
+        out = []
+        for gval in [guess * f_ for f_ in (0.5, 0.8, 1.25, 2.0)] + [guess * 0 + g_ for g_ in (8.0, 15.0, 25.0)]:
+            try:
+                r_ = windspeed_and_direction_from_spectra(b, gval, sp, direction_iteration=iterate)
+                out.append(np.asarray(r_["u10"].values, float))
+            except Exception:
+                pass
+        return out
+    return rescue
 
 
 def judge(ctx, c):
@@ -159,7 +188,8 @@ def judge(ctx, c):
                             lambda: outputs(b, c, np.roll(E, k, axis=-1), wdir + k * step, base["z_used"], inv_here), wit,
                             key="C09:exception")
         if ok:
-            compare(ctx, "rot", b0, other, lambda a: np.roll(a, k, axis=-1) if a.ndim == 3 else a, k * step, 1.0, wit, pair)
+            compare(ctx, "rot", b0, other, lambda a: np.roll(a, k, axis=-1) if a.ndim == 3 else a, k * step, 1.0, wit, pair,
+                    rescue=make_rescue(b, c, E, wl.build(c, np.roll(E, k, axis=-1))) if inv_here else None)
     if with_inv:
         # the inversion (with and without direction iteration) under EVERY rotation: the place where the seam falls
         # relative to the dissipation and stress directions differs from rotation to rotation
@@ -178,7 +208,7 @@ def judge(ctx, c):
             other = {"inv_u10": np.asarray(pair_[0]["u10"].values, float), "inv_dir": np.asarray(pair_[0]["direction"].values, float),
                      "invit_u10": np.asarray(pair_[1]["u10"].values, float), "invit_dir": np.asarray(pair_[1]["direction"].values, float)}
             ctx.count("C09.inversion_rotations")
-            compare_inversion(ctx, "rot", base, other, k * step, 1.0, wit)
+            compare_inversion(ctx, "rot", base, other, k * step, 1.0, wit, rescue=make_rescue(b, c, E, sk))
     idx = (-np.arange(nd)) % nd
     ctx.case((c["kind"], nd, pair, "mirror"), nontrivial=True)
     wit = lambda: {"gen": c, "mirror": True}  # noqa
